@@ -166,7 +166,14 @@ def run(ctx):
             ctx.traces += 1
             if r["status"] == "ok":
                 continue
-            if r["status"] in ("shroud-failed", "build-failed:direct", "direct-crashed", "build-failed:viaf"):
+            if r["status"] == "build-failed:viaf":
+                # the direct program of the same library built: the caller's program, which uses only the documented generic names of
+                # the generated module, does not compile (a specific is missing from a generic, an interface is wrong ...)
+                ctx.violation("failing-input", {"what": "a Fortran program that calls the documented generic names of the generated module does not compile or link "
+                                                        "(options %s)" % o,
+                                                "input": {"library_yaml": r.get("yaml", "")}, "compiler_output": r.get("detail", "")[-1500:]})
+                continue
+            if r["status"] in ("shroud-failed", "build-failed:direct", "direct-crashed"):
                 ctx.broken.append(("correspondence", "eqf-harness", "%s (%s): %s" % (r["status"], tag, r.get("detail", "")[-900:])))
                 continue
             ctx.violation("failing-input", {"what": "calling through the generated Fortran module is not equivalent to the direct call (%s, options %s)" % (r["status"], o),
